@@ -1074,7 +1074,7 @@ def old_empty_edges(ctx, body):
     # a flag that remembers the test: `let mut drop = false; if old.len() == 0 { drop = true } .. if drop { .. }` — every `true` it is ever
     # given is given on an edge where the old table was found empty, and nothing touches the tables between there and the test of the flag
     direct = dict(out)
-    if direct:
+    if True:
         from rules_protocol import between_blocks
         for bb in body.reachable():
             t = body.term(bb)
@@ -1093,10 +1093,32 @@ def old_empty_edges(ctx, body):
             if f == 0 or 1 <= f <= body.arg_count or ctx.facts.types[body.locals[f]["ty"]].get("s") != "bool":
                 continue
             ds = [x for x in body.defs().get(f, []) if not body.is_cleanup(x[0].bb)]
-            if len(ds) < 2 or any(x[1] != "assign" or x[2]["rv"]["k"] != "use" or x[2]["rv"]["op"]["k"] != "const" for x in ds):
+
+            def is_empty_cmp(rv_):
+                """the right-hand side is itself `old.len() == 0` / `self.pending() == 0` (the `b` of `a && b`)"""
+                if rv_["k"] != "binop" or rv_["op"] != "Eq":
+                    return False
+                for x_, y_ in ((rv_["a"], rv_["b"]), (rv_["b"], rv_["a"])):
+                    if body.op_const(y_) == 0:
+                        sd_ = body.source_def(x_)
+                        if sd_ is not None and sd_[1] == "call":
+                            c_ = ctx.call_at(body, sd_[0].bb)
+                            if c_.tname == HBT + "len" and ctx.role(body, c_.arg_path(0)) == OLD:
+                                return True
+                            lc_ = c_.local_callee()
+                            if lc_ is not None and c_.arg_path(0) is not None and is_self_s(ctx, body, c_.arg_path(0)):
+                                from rules_size import _pending_len_fns
+                                if lc_.path in _pending_len_fns(ctx):
+                                    return True
+                return False
+            if len(ds) < 2 or any(x[1] != "assign" for x in ds):
                 continue
-            trues = [x for x in ds if x[2]["rv"]["op"].get("val") == 1]
-            if not trues or len(trues) == len(ds):
+            consts = [x for x in ds if x[2]["rv"]["k"] == "use" and x[2]["rv"]["op"]["k"] == "const"]
+            cmps = [x for x in ds if x not in consts and is_empty_cmp(x[2]["rv"])]
+            if len(consts) + len(cmps) != len(ds):
+                continue
+            trues = [x for x in consts if x[2]["rv"]["op"].get("val") == 1]
+            if (not trues and not cmps) or len(trues) == len(ds):
                 continue
             ok = True
             for x in trues:
@@ -1104,6 +1126,9 @@ def old_empty_edges(ctx, body):
                 if not any(v is True and (e[1] == xb or e[1] in body.dom().get(xb, set())) and body.preds(e[1], True) == [e[0]] for e, v in direct.items()):
                     ok = False
                     break
+            # a flag that is given the comparison itself is true only where the old table was empty
+            for x in (trues + cmps) if ok else []:
+                xb = x[0].bb
                 for y in between_blocks(body, xb, bb) | {xb}:
                     ty_ = body.term(y)
                     if ty_["k"] == "call" and not body.is_cleanup(y):
